@@ -203,6 +203,10 @@ pub fn scenarios(thorough: bool) -> Vec<Scenario> {
     v.push(pair_scenario("pair-arrays", if thorough { &[2, 3, 4, 9] } else { &[3, 4] }, if thorough { 6 } else { 5 }, &[Op::Resolve(0, 0, 1)]));
     v.push(trio_scenario("trio", if thorough { 7 } else { 6 }));
     v.push(long_chain_scenario("pair-long-chain", if thorough { 3 } else { 2 }, &[]));
+    // edit-vs-delete at equal depth where the live revision wins the tie-break (digest ff3a…), and where it loses (6502…)
+    v.push(pair_conflict_scenario("pair-edit-hi-vs-delete", 15, 3, &[9], if thorough { 3 } else { 2 }, &[Op::Resolve(1, 0, 0), Op::Resolve(1, 1, 0), Op::Resolve(1, 1, 1), Op::Sync(0, 1)]));
+    v.push(pair_conflict_scenario("pair-edit-lo-vs-delete", 16, 3, &[9], if thorough { 3 } else { 2 }, &[Op::Resolve(1, 0, 0), Op::Resolve(1, 1, 0), Op::Resolve(1, 1, 1), Op::Sync(0, 1)]));
+    v.push(tie_scenario("pair-tie", if thorough { 3 } else { 2 }, &[]));
     v
 }
 
